@@ -791,6 +791,7 @@ func (envs *Manager) TeardownEnvironment(environmentId uid.ID, force bool) error
 	})
 
 	// we trigger all cleanup hooks, first calls, then tasks immediately after
+	hookTasksToRelease := make(task.Tasks, 0)
 	for _, weight := range allWeights {
 		hooksForWeight, ok := hooksMapForDestroy[weight]
 		if ok {
@@ -798,6 +799,9 @@ func (envs *Manager) TeardownEnvironment(environmentId uid.ID, force bool) error
 
 			// calls done, we start the task hooks...
 			cleanupTaskHooks := hooksForWeight.FilterTasks()
+
+			// all hook tasks of all weights were withheld from the first release, so all of them must be released
+			hookTasksToRelease = append(hookTasksToRelease, cleanupTaskHooks...)
 
 			// ...but only if their parent role is still ACTIVE (i.e. not killed or executor failed)
 			cleanupTaskHooks = cleanupTaskHooks.Filtered(func(t *task.Task) bool {
@@ -814,7 +818,7 @@ func (envs *Manager) TeardownEnvironment(environmentId uid.ID, force bool) error
 			}
 
 			// and then we kill them too
-			taskmanMessage = task.NewEnvironmentMessage(taskop.ReleaseTasks, environmentId, cleanupTaskHooks, nil)
+			taskmanMessage = task.NewEnvironmentMessage(taskop.ReleaseTasks, environmentId, hookTasksToRelease, nil)
 		}
 	}
 
